@@ -62,4 +62,5 @@ pub fn run(ctx: &'static Ctx) {
     });
     let wf = ctx.classes_matching(|c| c.ends_with(":accepted")); let rj = ctx.classes_matching(|c| c.ends_with(":rejected"));
     ctx.guard_check("well-formed and malformed domains both seen", wf > 0 && rj > 0, format!("{wf} accepting classes, {rj} rejecting classes"));
+    crate::hist::histories(ctx, P, "document-histories-c20", "TypedData from JSON and its three digests, a sequence on one fresh thread", crate::hist::td_ops());
 }
